@@ -178,6 +178,23 @@ var c11iso = gen.Register(&gen.Check[caseC11iso]{
 		}
 		return caseC11iso{X: gen.H(x), Odd: rapid.Bool().Draw(t, "odd")}
 	},
+	Fixed: func() []caseC11iso {
+		// algebraically distinguished abscissae of E': the one E' shares with secp256k1 itself (A'x + B' = 7: a point that is on
+		// both curves looks "already mapped"), the neighbours of the kernel abscissa, roots of the right-hand sides, 0, +-1
+		var out []caseC11iso
+		common := ref.FMul(ref.FSub(big.NewInt(7), ref.IsoB), ref.FInv0(ref.IsoA))
+		xs := []*big.Int{common, ref.FAdd(isoXT, bigOne), ref.FSub(isoXT, bigOne), new(big.Int), bigOne, pm1, ref.FNeg(ref.FMul(ref.IsoB, ref.FInv0(ref.IsoA)))}
+		if r := cubeRoot(ref.FNeg(big.NewInt(7))); r != nil {
+			xs = append(xs, r, ref.FMul(r, ref.Beta))
+		}
+		for _, x := range xs {
+			out = append(out, caseC11iso{X: gen.H(x), Odd: false}, caseC11iso{X: gen.H(x), Odd: true})
+		}
+		for _, v := range gen.DictFixed(ref.P, 4*gen.DictStride()) {
+			out = append(out, caseC11iso{X: gen.H(v), Odd: v.Bit(0) == 1})
+		}
+		return out
+	},
 	Run: func(c caseC11iso, o *gen.Obs) error {
 		if !pt.Calibrated() {
 			o.Class("skipped:api-only")
